@@ -26,8 +26,9 @@ theorem mem_all_xsOf {ps ps' : List (σ × Cursor)} (h : xsOf ps' = xsOf ps) (x 
 
 /-- the inner loop: what `scan` does from a lead on `l` when every other child is at or behind `l` -/
 theorem scan_spec (o : IterOps σ) (lead : σ) (cl : Cursor) (l : Nat) (hl : RefinesAt o lead cl)
-    (hcl : cl.cur = some l) :
+    (hcl : cl.cur = some l) (hdl : o.dom l) :
     ∀ qs : List (σ × Cursor), (∀ q ∈ qs, RefinesAt o q.1 q.2 ∧ ∀ w, q.2.cur = some w → w ≤ l) →
+      (∀ q ∈ qs, ∀ x ∈ q.2.xs, o.dom x) →
       (∃ qs', Inter.scan o lead l (qs.map (·.1)) = .allEqual (qs'.map (·.1)) ∧ xsOf qs' = xsOf qs ∧
           ∀ q' ∈ qs', RefinesAt o q'.1 q'.2 ∧ q'.2.cur = some l) ∨
       (∃ lead' r, Inter.scan o lead l (qs.map (·.1)) = .exhausted lead' r ∧
@@ -36,11 +37,12 @@ theorem scan_spec (o : IterOps σ) (lead : σ) (cl : Cursor) (l : Nat) (hl : Ref
           RefinesAt o lead' cl' ∧ cl'.xs = cl.xs ∧ cl'.cur = some l' ∧ l < l' ∧ cl.pos < cl'.pos ∧
           xsOf qs' = xsOf qs ∧ (∀ q' ∈ qs', RefinesAt o q'.1 q'.2 ∧ ∀ w, q'.2.cur = some w → w ≤ l') ∧
           ∀ x ∈ cl.xs, (∀ q ∈ qs, x ∈ q.2.xs) → l ≤ x → l' ≤ x)
-  | [], _ => Or.inl ⟨[], rfl, rfl, by simp⟩
-  | q :: qs, h => by
+  | [], _, _ => Or.inl ⟨[], rfl, rfl, by simp⟩
+  | q :: qs, h, hd => by
     obtain ⟨hq, hqb⟩ := h q (by simp)
     have hrest := fun q' hq' => h q' (List.mem_cons_of_mem _ hq')
-    obtain ⟨c', h1, h2⟩ := hq.advance l
+    have hdrest := fun q' hq' => hd q' (List.mem_cons_of_mem _ hq')
+    obtain ⟨c', h1, h2⟩ := hq.advance l hdl
     have hA := Cursor.advance_spec hq.wf l
     simp only [List.map_cons, Inter.scan, h1]
     cases hb : (q.2.advance l).1 with
@@ -57,7 +59,7 @@ theorem scan_spec (o : IterOps σ) (lead : σ) (cl : Cursor) (l : Nat) (hl : Ref
       by_cases hwl : w = l
       · subst hwl
         simp only [↓reduceIte]
-        rcases scan_spec o lead cl w hl hcl qs hrest with ⟨qs', e1, e2, e3⟩ | ⟨lead', r, e1, e2⟩ |
+        rcases scan_spec o lead cl w hl hcl hdl qs hrest hdrest with ⟨qs', e1, e2, e3⟩ | ⟨lead', r, e1, e2⟩ |
             ⟨lead', cl', l', qs', e1, e2, e3, e4, e5, e6, e7, e8, e9⟩
         · refine Or.inl ⟨(c', (q.2.advance w).2) :: qs', by rw [e1]; rfl, ?_, ?_⟩
           · simp only [xsOf, List.map_cons, hxs']; rw [show List.map _ qs' = xsOf qs' from rfl, e2]
@@ -80,7 +82,7 @@ theorem scan_spec (o : IterOps σ) (lead : σ) (cl : Cursor) (l : Nat) (hl : Ref
             exact e9 x hx (fun q' hq' => hall q' (List.mem_cons_of_mem _ hq')) hwx
       · simp only [hwl, ↓reduceIte]
         have hlw' : l < w := by omega
-        obtain ⟨lead', h3, h4⟩ := hl.advance w
+        obtain ⟨lead', h3, h4⟩ := hl.advance w (hd q (by simp) w hwm)
         have hAl := Cursor.advance_spec hl.wf w
         rw [h3]
         cases hb2 : (cl.advance w).1 with
@@ -117,6 +119,7 @@ theorem scan_spec (o : IterOps σ) (lead : σ) (cl : Cursor) (l : Nat) (hl : Ref
 def InterRel (o : IterOps σ) (fuel : Nat) (its : List σ) (C : Cursor) : Prop :=
   C.WF ∧ ∃ (lead : σ) (cl : Cursor) (ps : List (σ × Cursor)),
     its = lead :: ps.map (·.1) ∧ RefinesAt o lead cl ∧ cl.xs.length < fuel ∧
+    (∀ x ∈ cl.xs, o.dom x) ∧ (∀ p ∈ ps, ∀ x ∈ p.2.xs, o.dom x) ∧
     (∀ p ∈ ps, RefinesAt o p.1 p.2 ∧ p.2.cur = cl.cur) ∧ C.cur = cl.cur ∧
     (∀ x, x ∈ C.xs ↔ x ∈ cl.xs ∧ ∀ p ∈ ps, x ∈ p.2.xs)
 
@@ -125,18 +128,24 @@ cursor's `advance t₀`. -/
 theorem leapfrog_spec (o : IterOps σ) (fuel : Nat) (C : Cursor) (t₀ : Nat) (hC : C.WF) :
     ∀ (f : Nat) (lead : σ) (cl : Cursor) (l : Nat) (ps : List (σ × Cursor)),
       cl.xs.length - cl.pos < f → cl.xs.length < fuel → RefinesAt o lead cl → cl.cur = some l → t₀ ≤ l →
+      (∀ x ∈ cl.xs, o.dom x) → (∀ p ∈ ps, ∀ x ∈ p.2.xs, o.dom x) →
       (∀ v, C.cur = some v → v ≤ l) →
       (∀ p ∈ ps, RefinesAt o p.1 p.2 ∧ ∀ w, p.2.cur = some w → w ≤ l) →
       (∀ x, x ∈ C.xs ↔ x ∈ cl.xs ∧ ∀ p ∈ ps, x ∈ p.2.xs) →
       (∀ x ∈ C.xs, t₀ ≤ x → (∀ v, C.cur = some v → v ≤ x) → l ≤ x) →
       ∃ its', Inter.leapfrog o f lead (ps.map (·.1)) = .ok ((C.advance t₀).1, its') ∧
         ((C.advance t₀).1 = true → InterRel o fuel its' (C.advance t₀).2)
-  | 0, _, _, _, _, hf, _, _, _, _, _, _, _, _ => by omega
-  | f + 1, lead, cl, l, ps, hf, hfuel, hl, hcl, htl, hCl, hps, hM, hsafe => by
+  | 0, _, _, _, _, hf, _, _, _, _, _, _, _, _, _, _ => by omega
+  | f + 1, lead, cl, l, ps, hf, hfuel, hl, hcl, htl, hdcl, hdps, hCl, hps, hM, hsafe => by
     have hA := Cursor.advance_spec hC t₀
     have hval : o.value lead = some l := by rw [hl.value (by rw [hcl]; rfl), hcl]
     simp only [Inter.leapfrog, hval]
-    rcases scan_spec o lead cl l hl hcl ps hps with ⟨qs', e1, e2, e3⟩ | ⟨lead', r, e1, e2⟩ |
+    have hxsdom : ∀ qs' : List (σ × Cursor), xsOf qs' = xsOf ps → ∀ p ∈ qs', ∀ x ∈ p.2.xs, o.dom x := by
+      intro qs' he p hp x hx
+      have : p.2.xs ∈ xsOf ps := by rw [← he]; exact List.mem_map.2 ⟨p, hp, rfl⟩
+      obtain ⟨p', hp', hpe⟩ := List.mem_map.1 this
+      exact hdps p' hp' x (by rw [hpe]; exact hx)
+    rcases scan_spec o lead cl l hl hcl (hdcl l (Cursor.cur_mem hcl)) ps hps hdps with ⟨qs', e1, e2, e3⟩ | ⟨lead', r, e1, e2⟩ |
         ⟨lead', cl', l', qs', e1, e2, e3, e4, e5, e6, e7, e8, e9⟩
     · -- all children on `l`
       rw [e1]
@@ -156,7 +165,7 @@ theorem leapfrog_spec (o : IterOps σ) (fuel : Nat) (C : Cursor) (t₀ : Nat) (h
         omega
       subst hxl
       refine ⟨lead :: qs'.map (·.1), by rw [ht], fun _ => ?_⟩
-      refine ⟨hw', lead, cl, qs', rfl, hl, hfuel, ?_, by rw [hx, hcl], ?_⟩
+      refine ⟨hw', lead, cl, qs', rfl, hl, hfuel, hdcl, hxsdom qs' e2, ?_, by rw [hx, hcl], ?_⟩
       · intro q' hq'; rw [hcl]; exact e3 q' hq'
       · intro y; rw [hxs', hM, mem_all_xsOf e2]
     · -- a child or the lead ran out: no common element is left
@@ -177,7 +186,7 @@ theorem leapfrog_spec (o : IterOps σ) (fuel : Nat) (C : Cursor) (t₀ : Nat) (h
         rw [e3] at this ⊢
         omega
       obtain ⟨its', h1, h2⟩ := leapfrog_spec o fuel C t₀ hC f lead' cl' l' qs' hlen (by rw [e3]; exact hfuel)
-        e2 e4 (by omega) (fun v hv => by have := hCl v hv; omega) e8
+        e2 e4 (by omega) (by rw [e3]; exact hdcl) (hxsdom qs' e7) (fun v hv => by have := hCl v hv; omega) e8
         (by intro y; rw [hM, e3, mem_all_xsOf e7])
         (by
           intro y hy hty hcy
@@ -188,12 +197,12 @@ theorem leapfrog_spec (o : IterOps σ) (fuel : Nat) (C : Cursor) (t₀ : Nat) (h
 theorem inter_simulation (o : IterOps σ) (fuel : Nat) : Simulation (Inter.ops o fuel) (InterRel o fuel) where
   wf _ _ h := h.1
   value its C h hC := by
-    obtain ⟨_, lead, cl, ps, rfl, hl, _, _, hcc, _⟩ := h
+    obtain ⟨_, lead, cl, ps, rfl, hl, _, _, _, _, hcc, _⟩ := h
     show o.value lead = C.cur
     rw [hcc] at hC ⊢
     exact hl.value hC
   next its C h := by
-    obtain ⟨hC, lead, cl, ps, rfl, hl, hfuel, hps, hcc, hM⟩ := h
+    obtain ⟨hC, lead, cl, ps, rfl, hl, hfuel, hdcl, hdps, hps, hcc, hM⟩ := h
     obtain ⟨hnb, hns⟩ := Cursor.next_eq_advance_lo hC
     have hlo : C.lo = cl.lo := by simp [Cursor.lo, hcc]
     obtain ⟨lead', h1, h2⟩ := hl.next
@@ -216,6 +225,7 @@ theorem inter_simulation (o : IterOps σ) (fuel : Nat) : Simulation (Inter.ops o
       obtain ⟨_, hxs', hpos, l, hl', hlm, hlol, hleast⟩ := hN.1 hb
       obtain ⟨its', e1, e2⟩ := leapfrog_spec o fuel C C.lo hC fuel lead' cl.next.2 l ps
         (by rw [hxs']; omega) (by rw [hxs']; exact hfuel) (h2 hb) hl' (by omega)
+        (by rw [hxs']; exact hdcl) hdps
         (by
           intro v hv
           have : C.lo = v + 1 := by simp [Cursor.lo, hv]
@@ -234,9 +244,9 @@ theorem inter_simulation (o : IterOps σ) (fuel : Nat) : Simulation (Inter.ops o
       refine ⟨its', by show Inter.leapfrog o fuel lead' (ps.map (·.1)) = _; rw [e1, hnb], ?_⟩
       intro ht
       rw [hns ht]; exact e2 (by rw [← hnb]; exact ht)
-  advance k its C h := by
-    obtain ⟨hC, lead, cl, ps, rfl, hl, hfuel, hps, hcc, hM⟩ := h
-    obtain ⟨lead', h1, h2⟩ := hl.advance k
+  advance k its C h hk := by
+    obtain ⟨hC, lead, cl, ps, rfl, hl, hfuel, hdcl, hdps, hps, hcc, hM⟩ := h
+    obtain ⟨lead', h1, h2⟩ := hl.advance k hk
     have hAl := Cursor.advance_spec hl.wf k
     have hA := Cursor.advance_spec hC k
     simp only [Inter.ops, Inter.advance, h1]
@@ -255,6 +265,7 @@ theorem inter_simulation (o : IterOps σ) (fuel : Nat) : Simulation (Inter.ops o
       obtain ⟨_, hxs', hpos, l, hl', hlm, hkl, hcl', hleast⟩ := hAl.1 hb
       obtain ⟨its', e1, e2⟩ := leapfrog_spec o fuel C k hC fuel lead' (cl.advance k).2 l ps
         (by rw [hxs']; omega) (by rw [hxs']; exact hfuel) (h2 hb) hl' hkl
+        (by rw [hxs']; exact hdcl) hdps
         (by intro v hv; rw [hcc] at hv; exact hcl' v hv)
         (by
           intro p hp
@@ -314,7 +325,7 @@ of any strictly increasing list `ys` holding exactly the common elements, whatev
 `EstimateLength` puts them in; `fuel` only has to exceed the length of every child's list. -/
 theorem inter_refines (o : IterOps σ) (fuel : Nat) (est : σ → Nat) (ps : List (σ × List Nat)) (ys : List Nat)
     (hne : ps ≠ []) (hch : ∀ p ∈ ps, Refines o p.1 p.2 ∧ p.2.length < fuel) (hys : StrictSorted ys)
-    (hmem : ∀ x, x ∈ ys ↔ ∀ p ∈ ps, x ∈ p.2) :
+    (hmem : ∀ x, x ∈ ys ↔ ∀ p ∈ ps, x ∈ p.2) (hdom : ∀ p ∈ ps, ∀ x ∈ p.2, o.dom x) :
     Refines (Inter.ops o fuel) (Inter.sortBy est (ps.map (·.1))) ys := by
   rw [sortBy_map]
   have hmemS := mem_sortBy (fun p : σ × List Nat => est p.1) ps
@@ -326,10 +337,14 @@ theorem inter_refines (o : IterOps σ) (fuel : Nat) (est : σ → Nat) (ps : Lis
   | cons p0 rest =>
     have hin : ∀ q, q ∈ p0 :: rest ↔ q ∈ ps := by intro q; rw [← hs]; exact hmemS q
     refine ⟨InterRel o fuel, inter_simulation o fuel, hys, p0.1, start p0.2,
-      rest.map (fun p => (p.1, start p.2)), ?_, ?_, ?_, ?_, rfl, ?_⟩
+      rest.map (fun p => (p.1, start p.2)), ?_, ?_, ?_, ?_, ?_, ?_, rfl, ?_⟩
     · simp [List.map_map]
     · exact (hch p0 ((hin p0).1 (by simp))).1
     · exact (hch p0 ((hin p0).1 (by simp))).2
+    · exact hdom p0 ((hin p0).1 (by simp))
+    · intro q hq
+      obtain ⟨p, hp, rfl⟩ := List.mem_map.1 hq
+      exact hdom p ((hin p).1 (List.mem_cons_of_mem _ hp))
     · intro q hq
       obtain ⟨p, hp, rfl⟩ := List.mem_map.1 hq
       exact ⟨(hch p ((hin p).1 (List.mem_cons_of_mem _ hp))).1, rfl⟩
@@ -352,14 +367,15 @@ above the length of every child's list, neither `Next` nor `Advance` ever answer
 history of calls (stated on the invariant `InterRel`, which every reachable state satisfies). -/
 theorem inter_terminates (o : IterOps σ) (fuel : Nat) (its : List σ) (C : Cursor)
     (h : InterRel o fuel its C) :
-    Inter.next o fuel its ≠ .error .fuel ∧ ∀ k, Inter.advance o fuel k its ≠ .error .fuel := by
+    Inter.next o fuel its ≠ .error .fuel ∧ ∀ k, o.dom k → Inter.advance o fuel k its ≠ .error .fuel := by
   constructor
   · obtain ⟨s', h1, _⟩ := (inter_simulation o fuel).next its C h
     intro h2
     have : (Inter.ops o fuel).next its = Inter.next o fuel its := rfl
     rw [this, h2] at h1; cases h1
   · intro k
-    obtain ⟨s', h1, _⟩ := (inter_simulation o fuel).advance k its C h
+    intro hk
+    obtain ⟨s', h1, _⟩ := (inter_simulation o fuel).advance k its C h hk
     intro h2
     have : (Inter.ops o fuel).advance k its = Inter.advance o fuel k its := rfl
     rw [this, h2] at h1; cases h1
